@@ -24,7 +24,8 @@ const Rule = "case = (grammar, one transformation): description lines, the trans
 	"op's own normal form holds, the result passes Verify() and the independent validity check, IsCNF() " +
 	"agrees with the independent CNF check, the receiver equals a clone taken before the call AND renders to " +
 	"the same text as before (a deep rendering: Clone shares the production values); grammars as in C08 (incl. " +
-	"terminals named like non-terminals, pipelines T1 then T2, bodies of 99-104 symbols) plus helper cases (Verify() and " +
+	"terminals named like non-terminals, pipelines T1 then T2, names that look generated — A, A₁, A₂, A′, aₙ … with a body of 3-5 symbols; " +
+	"post-conditions only where the result grammar depends on Go's iteration order —, bodies of 99-104 symbols) plus helper cases (Verify() and " +
 	"IsCNF() as error lists, AnyMatch / AllMatch / SelectMatch, Equal, the comparators and hashes, on valid and on malformed " +
 	"grammars) and `parsers` on malformed grammars (the caller's grammar stays unchanged whether the constructor returns or " +
 	"panics; the Model predicts which for predictive.BuildParsingTable); non-trivial = the input did not already satisfy the op's post-condition (or, for `parsers`, " +
@@ -381,6 +382,20 @@ func Main(run *hx.Run) {
 				for _, t2 := range c08.OpsFor(h) {
 					lim.Do(run, t2, caseFor(h, "pipe-"+t1, t2), Exec)
 				}
+			}
+		}
+	}
+	{
+		// names that already look generated (A, A₁, A₂, A′, aₙ, …) with bodies long enough for BIN; where the result
+		// grammar depends on Go's iteration order only the post-conditions are compared
+		r := run.R.Fork("suffixed-names")
+		for k := 0; k < run.Scale(24); k++ {
+			g := c08.SuffixedNames(r, c08.GenGrammar(r, c08.Mixes[k%len(c08.Mixes)]))
+			comps, cases := c08.SuffixedCases(g, "suffixed-names", caseFor, func(g gx.G, mix, op string) hx.Case {
+				return hx.Case{Header: fmt.Sprintf("comp=%s mix=%s", op, mix), Ops: append(g.Lines(), "post "+op)}
+			})
+			for i := range cases {
+				lim.Do(run, comps[i], cases[i], Exec)
 			}
 		}
 	}
